@@ -205,6 +205,8 @@ static void BuildSpace(bool thorough)
    for (size_t i = 0; i < sizeof(kSessNode) / sizeof(kSessNode[0]); i++) for (size_t j = 0; j < sizeof(kSessPartner) / sizeof(kSessPartner[0]); j++) for (int o = 0; o < 2; o++) {
       std::vector<std::string> k; k.push_back(o ? kSessPartner[j] : kSessNode[i]); k.push_back(o ? kSessNode[i] : kSessPartner[j]); multis.push_back(AddSet(k, "pair:session-or-host-node+other"));
    }
+   { static const char * bad[][3] = { { "a[", "a", NULL }, { "a", "a/(b", "b" }, { "[oops", "/*/*/a", NULL }, { "a/[", "b", NULL }, { "b", "a[", NULL } };   // a malformed key before / between / after well-formed ones
+     for (size_t i = 0; i < sizeof(bad) / sizeof(bad[0]); i++) { std::vector<std::string> k; for (int j = 0; j < 3 && bad[i][j]; j++) k.push_back(bad[i][j]); multis.push_back(AddSet(k, "multi:malformed+well-formed")); } }
    { std::vector<std::string> k; k.push_back("a"); k.push_back("a//b"); multis.push_back(AddSet(k, "pair:out-of-domain")); k[0] = ""; k[1] = "a"; multis.push_back(AddSet(k, "pair:out-of-domain")); }
    // ordered triples
    const size_t nT = thorough ? 12 : 6;
@@ -383,7 +385,20 @@ static void RunRouting(const CaseDef & cd, mutx::Case & c)
    // the reference's verdict
    const bool byKeys = (cd.kind == K_KEYS || cd.kind == K_ROUTE);
    const Judge J(ps, cd.fmode, true);
-   if (byKeys && !J.inDomain) { ADD(routingUncompared, 1); return; }
+   if (byKeys && !J.inDomain) {
+      ADD(routingUncompared, 1);
+      // One-sided comparison: whatever a key outside the documented syntax means (it may be unparsable and select nothing), the OTHER keys of the same
+      // Message keep their meaning -- a session that owns a node matched by one of the well-formed keys must be handed every Message (at least once).
+      if (cd.fmode == 0) {
+         bool lb[NROLE]; std::string lbText[NROLE]; for (int r = 0; r < n; r++) lb[r] = false;
+         for (size_t i = 0; i < g_ref[f].size(); i++) { const RNode & nd = g_ref[f][i]; if (nd.owner < 0) continue; for (size_t j = 0; j < J.pk.size(); j++) if (J.pk[j].ok && KeyMatches(J.pk[j], nd.segs, 0)) { lb[nd.owner] = true; lbText[nd.owner] += " " + nd.full; break; } }
+         for (int s = 0; s < n; s++) for (int r = 0; r < n; r++) if ((r != s || cd.self) && lb[r]) {
+            int cnt[RUN_LEN] = { 0, 0, 0 }; for (size_t i = 0; i < got[s][r].size(); i++) cnt[got[s][r][i]]++;
+            if (!(cnt[0] && cnt[1] && cnt[2])) { c.Fail("routing:missing-delivery:well-formed-key-next-to-a-malformed-key", ctx + std::string("sender ") + kRoleCh[s] + " -> receiver " + kRoleCh[r] + verif::Fmt(": received %d/%d/%d copies of seq 0/1/2 although the receiver owns", cnt[0], cnt[1], cnt[2]) + lbText[r] + ", matched by a well-formed key of the same Message (" + J.why + "); all deliveries: " + matrix); return; }
+         }
+      }
+      return;
+   }
    ADD(routingCompared, 1);
    bool owns[NROLE], sessNode[NROLE]; int nMatch[NROLE]; std::set<std::string> tops[NROLE]; std::string matchText[NROLE];
    for (int r = 0; r < n; r++) { owns[r] = !byKeys; sessNode[r] = false; nMatch[r] = 0; }
